@@ -535,7 +535,8 @@ theorem C02_inet_mapped (b : Bytes) (h16 : b.length = 16) (hz : b.take 10 = List
 
 /-- the values for which the same-type round trip is claimed, built over the scalar triples of `Leaf`: pointers and
     pointers to pointers (nil, or a chain down to a value that is not written as null), lists / sets bound to slices and
-    arrays, maps (a Go map holds each key once), nil slices / maps, tuples bound to structs — nested to ANY depth.  Under protocol ≤ 2 the
+    arrays, maps (a Go map holds each key once), nil slices / maps, tuples bound to structs, slices, arrays and
+    []interface{} — nested to ANY depth.  Under protocol ≤ 2 the
     elements must not be null (the 2-byte framing has no null element: KF-C02-3). -/
 inductive Clean (p : Nat) : CqlTy → GoTy → GoVal → Prop
   | leaf {t ty g} : Leaf t ty g → Clean p t ty g
@@ -555,6 +556,17 @@ inductive Clean (p : Nat) : CqlTy → GoTy → GoVal → Prop
   | tuple (fs : List TField) : (∀ f, f ∈ fs → f.kind ≠ .null → Clean p f.t (goTypeOf f.t) f.v) →
       (∀ f, f ∈ fs → f.side p) →
       Clean p (.tuple (fs.map (·.t))) (.struct (fs.map (·.ty))) (.struct (fs.map (·.val)))
+  /-- tuple ↔ []G / [n]G: every field of the one Go type `g` (goType(elem) for every element, or a pointer to it) -/
+  | tupleSlice (fs : List TField) (g : GoTy) : (∀ f, f ∈ fs → f.kind ≠ .null → Clean p f.t (goTypeOf f.t) f.v) →
+      (∀ f, f ∈ fs → f.side p) → (∀ f, f ∈ fs → f.ty = g) → (g == GoTy.iface) = false →
+      Clean p (.tuple (fs.map (·.t))) (.slice g) (.slice false (fs.map (·.val)))
+  | tupleArray (fs : List TField) (g : GoTy) : (∀ f, f ∈ fs → f.kind ≠ .null → Clean p f.t (goTypeOf f.t) f.v) →
+      (∀ f, f ∈ fs → f.side p) → (∀ f, f ∈ fs → f.ty = g) →
+      Clean p (.tuple (fs.map (·.t))) (.array (fs.map (·.t)).length g) (.array (fs.map (·.val)))
+  /-- tuple ↔ []interface{} holding a goType(elem) value per element (no nil element) -/
+  | tupleIfaces (fs : List TField) : (∀ f, f ∈ fs → f.kind ≠ .null → Clean p f.t (goTypeOf f.t) f.v) →
+      (∀ f, f ∈ fs → f.side p) → (∀ f, f ∈ fs → f.kind = .iface) →
+      Clean p (.tuple (fs.map (·.t))) (.slice .iface) (.ifaces (fs.map (·.val)))
 
 /-- NESTED ROUND TRIP, by structural induction: for every `Clean` value — scalars inside pointers inside lists inside
     maps inside lists …, any depth — whatever Marshal returns without error, Unmarshal of it into a fresh value of the same
@@ -572,6 +584,24 @@ theorem C02_nested_roundtrip (p : Nat) (t : CqlTy) (ty : GoTy) (g : GoVal) (h : 
   | map _ _ hnn hd ihk ihv => exact rt_map p _ _ _ _ _ (fun kv hkv => ⟨ihk kv hkv, ihv kv hkv⟩) hnn hd
   | nilMap kt vt gk gv => exact rt_nil_map p kt vt gk gv
   | tuple fs _ hside ih => exact rt_tuple_struct p _ _ _ (fieldsRT_of p fs ih hside)
+  | tupleSlice fs g _ hside hty hg ih =>
+    have h := fieldsRT_of p fs ih hside
+    rw [map_ty_replicate fs g hty] at h
+    exact rt_tuple_slice p _ g _ h hg
+  | tupleArray fs g _ hside hty ih =>
+    have h := fieldsRT_of p fs ih hside
+    rw [map_ty_replicate fs g hty] at h
+    exact rt_tuple_array p _ g _ h
+  | tupleIfaces fs _ hside hk ih =>
+    have h := fieldsRT_of p fs ih hside
+    rw [map_ty_replicate fs .iface (fun f hf => by simp [TField.ty, hk f hf])] at h
+    refine rt_tuple_ifaces p _ _ h ?_
+    intro v hv
+    obtain ⟨f, hf, rfl⟩ := List.mem_map.mp hv
+    have hs := hside f hf
+    simp only [TField.side, hk f hf] at hs
+    simp only [TField.val, hk f hf]
+    exact ⟨hs.2.1, hs.1⟩
 
 /-- non-vacuity: list<map<text, list<int>>> — a slice holding a nil map and a map from "b" to a slice of *int (one
     pointing to 7, one nil = a null element, protocol 4) -/
@@ -633,6 +663,31 @@ example : Clean 4 (.list (.tuple [.int, .text])) (.slice (.struct [.ptr (.int .i
       intro b hb
       simp [marshal, marshalScalar, marshalVarcharColumn] at hb
       subst hb; simp
+
+/-- non-vacuity: tuple<int, int> ↔ []int, [2]*int and []interface{}{int, int} -/
+example : Clean 4 (.tuple [.int, .int]) (.slice .iface) (.ifaces [.int .int false 1, .int .int false (-1)]) := by
+  have hs : ∀ n : Int, Small 4 .int (.int .int false n) := by
+    intro n b hb
+    simp [marshal, marshalScalar, marshalIntColumn, optM, marshalIntKind] at hb
+    split at hb
+    · rename_i heq
+      split at heq
+      · cases heq
+      · injection heq with heq
+        injection hb with hb
+        injection hb with hb
+        subst hb; subst heq; simp [encInt]
+    · cases hb
+  refine Clean.tupleIfaces [⟨.int, .iface, .int .int false 1⟩, ⟨.int, .iface, .int .int false (-1)⟩] ?_ ?_ ?_
+  · intro f hf _
+    simp at hf
+    rcases hf with rfl | rfl <;> exact .leaf (.int (col := .int) rfl _ _ _ (by decide))
+  · intro f hf
+    simp at hf
+    rcases hf with rfl | rfl <;> exact ⟨rfl, rfl, hs _⟩
+  · intro f hf
+    simp at hf
+    rcases hf with rfl | rfl <;> rfl
 
 /-- TUPLE step (element theorems as hypotheses, `FieldsRT`): a struct bound to tuple<T1, …, Tn> whose i-th field has
     type goType(Ti) — holding a value whose round trip holds — or *goType(Ti) — nil, or pointing to such a value that is
